@@ -52,6 +52,50 @@ pub fn main(args: &[String]) -> i32 {
             println!("both={} neither={} only_darklua={} only_reflua={} roundtrip_fail={}", both, neither, only_dl, only_ref, rt_fail);
             0
         }
+        Some("proc") => {
+            // dlverif dev proc '<config json5>' <file|->   : run darklua on one file, print the output
+            let cfg = &args[1];
+            let text = if args[2] == "-" {
+                let mut s = String::new();
+                use std::io::Read;
+                std::io::stdin().read_to_string(&mut s).unwrap();
+                s
+            } else {
+                std::fs::read_to_string(&args[2]).unwrap()
+            };
+            match crate::framework::guarded(|| dl::process_one(&text, cfg)) {
+                Ok(Ok(o)) => {
+                    print!("{}", o);
+                    0
+                }
+                Ok(Err(e)) => {
+                    println!("ERROR: {}", e);
+                    1
+                }
+                Err(p) => {
+                    println!("PANIC: {}", p);
+                    3
+                }
+            }
+        }
+        Some("run") => {
+            // dlverif dev run <file|-> : run with the reference interpreter (both dialects)
+            let text = if args[1] == "-" {
+                let mut s = String::new();
+                use std::io::Read;
+                std::io::stdin().read_to_string(&mut s).unwrap();
+                s
+            } else {
+                std::fs::read_to_string(&args[1]).unwrap()
+            };
+            for d in [crate::reflua::literal::Dialect::L51, crate::reflua::literal::Dialect::Luau] {
+                match crate::reflua::run_source(&text, d, 1_000_000, args.len() > 2) {
+                    Ok(o) => println!("[{:?}] {}\n  uncertain: {:?}", d, crate::mon::exec::describe(&o), o.uncertain),
+                    Err(e) => println!("parse error: {}", e),
+                }
+            }
+            0
+        }
         Some("parse") => {
             let text = std::fs::read_to_string(&args[1]).unwrap();
             match parser::parse_block(&text, parser::Mode::Luau) {
